@@ -225,7 +225,7 @@ package container
 // What a creation (creating callback, early-reference callback, and every registry operation that may run one) is
 // allowed to touch besides the registry's own caches: injection-point candidate lists and tag values, dependents,
 // memory behind settable fields, lifecycle / narrowing ghost state. A-CALLBACK: user callbacks stay inside this frame.
-//@ frame CreationFrame() = ShortCircuit, Wrapped, anyfield(component_definition.Property, Injects), anyfield(component_definition.Property, TagVal), anyfield(component_definition.Meta, Dependent), anyfield(sync2.Map[string, struct{}], Dom), anyfield(sync2.Map[string, struct{}], Val), RMem, RTop, FilterSrc, FilterPos, MetasPos, PosSnap, allmaps(map[string]any), ElLastInput, St, PropsLen, PropsAt, PropsPos, BeforeLen, BeforeAt, AfterLen, AfterAt, ApsCalls, InitCalls, CurName, Failed
+//@ frame CreationFrame() = ShortCircuit, Wrapped, anyfield(component_definition.Property, Injects), anyfield(component_definition.Property, TagVal), anyfield(component_definition.Meta, Dependent), anyfield(sync2.Map[string, struct{}], Dom), anyfield(sync2.Map[string, struct{}], Val), RMem, RTop, FilterSrc, FilterPos, MetasPos, MetasKey, PosSnap, allmaps(map[string]any), ElLastInput, St, PropsLen, PropsAt, PropsPos, BeforeLen, BeforeAt, AfterLen, AfterAt, ApsCalls, InitCalls, CurName, Failed
 //@ frame RegFrame(r) = r.L1Dom, r.L1, r.L2Dom, r.L2, r.L3Dom, r.L3, r.IC, r.EarlyRuns, r.Creates, r.HasHole, r.Hole
 
 // ---- instantiation-aware processors (C05, C09, C18): all three run before the component's initialization ---------
@@ -261,7 +261,7 @@ package container
 //@ method (DefinitionRegistry).GetMetas
 //@ property C06 C10
 //@ requires [inv] DefInv(self)
-//@ assigns MetasPos
+//@ assigns MetasPos, MetasKey
 //@ ensures [sound] forall(i, int, implies(0 <= i && i < len(result), result[i] != nil && self.DefDom[result[i].Name()] && self.Def[result[i].Name()] == result[i]), result[i])
 //@ requires [options-callable] forall(j, int, forall(n, string, implies(0 <= j && j < len(opts) && self.DefDom[n], opts[j] != nil && callpre(opts[j], self.Def[n]))))
 //@ ensures [filtered] forall(i, int, forall(j, int, implies(0 <= i && i < len(result) && 0 <= j && j < len(opts), call(opts[j], result[i]))))
@@ -342,6 +342,11 @@ package container
 //@ property C06
 //@ assigns nothing
 //@ ensures [any-of] result != nil && forall(m, *component_definition.Meta, call(result, m) == exists(i, int, 0 <= i && i < len(opts) && call(opts[i], m))) && forall(m, *component_definition.Meta, callpre(result, m) == (MetaOK(m) && forall(i, int, implies(0 <= i && i < len(opts), opts[i] != nil && callpre(opts[i], m)))))
+
+//@ func And
+//@ property C06 C10
+//@ assigns nothing
+//@ ensures [all-of] result != nil && forall(m, *component_definition.Meta, call(result, m) == forall(i, int, implies(0 <= i && i < len(opts), call(opts[i], m)))) && forall(m, *component_definition.Meta, callpre(result, m) == (MetaOK(m) && forall(i, int, implies(0 <= i && i < len(opts), opts[i] != nil && callpre(opts[i], m)))))
 
 // ---- wiring calls made by App.initiate (C09, C13): no start-up event happens in them ----------------------------------
 //@ ghost field (Factory) WiredRegistry SingletonRegistry
